@@ -108,10 +108,11 @@ def rfindByte (c : Char) (t : Text) : Option Nat :=
 def takeBytes (t : Text) (n : Nat) : Text := match splitAtByte t n with | some (a, _) => a | none => t
 def dropBytes (t : Text) (n : Nat) : Text := match splitAtByte t n with | some (_, b) => b | none => []
 
-def mkCfg (vi : Bool) (flags : String) (hist : List Text) (h : Option Helper)
+def mkCfg (vi : Bool) (cols : Nat) (flags : String) (hist : List Text) (h : Option Helper)
     (binds : List (List KeyEvent × Cmd)) : EdCfg :=
-  let base : EdCfg := { vi, listCompletion := flags.contains 'l', withPrinter := flags.contains 'p',
-                        hist, binds, hasHelper := h.isSome }
+  let base : EdCfg := { vi, cols, listCompletion := flags.contains 'l', withPrinter := flags.contains 'p',
+                        hist, binds, hasHelper := h.isSome,
+                        hasCompleter := (h.map (fun h => h.cands.isSome)).getD false }
   match h with
   | none => base
   | some h =>
@@ -164,7 +165,7 @@ def handleCore (tbl : CharTable) (f : List String) : Option (String × EdCfg) :=
     let input : Input :=
       if flags.contains 't' then { buf := [], avail := [], future := if chunks.flatten.isEmpty then [] else [chunks.flatten] }
       else { buf := [], avail := [], future := chunks }
-    let cfg := mkCfg vi flags hist h binds
+    let cfg := mkCfg vi cols flags hist h binds
     let S := uaxSeg (clsOf tbl)
     let U := udataOf tbl
     let (o, s) := readline S U cfg (KillRing.new 60) left right input
